@@ -119,6 +119,9 @@ pub fn gen_case(t: &mut Tape) -> Case {
     if any_async && !methods.iter().any(|m| m.is_async) {
         methods[0].is_async = true;
     }
+    // a method with a default body that no provider overrides: implementors other than Impl<T> rely on it, and Impl<T> has to
+    // reach the provider's (inherited) version. An async default needs `Self: Sync` for a Send future.
+    let dflt = if t.chance(1, 3) { Some(any_async && (no_send || use_async_trait) && t.flip()) } else { None };
     let mut opts: Vec<String> = vec![];
     match selector {
         1 => opts.push("delegate_by = Self".into()),
@@ -160,6 +163,10 @@ pub fn gen_case(t: &mut Tape) -> Case {
     src.push_str(&format!("/*GEN*/ #[::entrait::entrait({attr})]\n{at}pub trait Tr{tg}{sup_src} {{\n"));
     for m in &methods {
         src.push_str(&format!("    {};\n", m.sig(false).replace("u: U", u_decl)));
+    }
+    if let Some(dasync) = dflt {
+        let (q, y) = if dasync { ("async ", "rt::yield_once().await; ") } else { ("", "") };
+        src.push_str(&format!("    {q}fn dflt(&self, x: i32, y: i32) -> String {{ {y}let __r = format!(\"DFLT|{{}}|{{}},{{}}\", rt::addr(self), x, y); rt::trace(__r.clone()); __r }}\n"));
     }
     src.push_str("}\n");
     // recording providers: Rec (Sync) and NsRec (!Sync)
@@ -259,6 +266,16 @@ pub fn gen_case(t: &mut Tape) -> Case {
         }
         src.push_str("    }\n");
     }
+    if let Some(dasync) = dflt {
+        let wrap = |e: String| if dasync { format!("rt::block_on({e})") } else { e };
+        src.push_str("    {\n        let _ = rt::take();\n");
+        src.push_str(&format!("        let direct = {};\n        let t_direct = rt::take();\n", wrap("Tr::dflt(provider(&app), 41, 42)".to_string())));
+        src.push_str(&format!("/*GEN*/ let via = {};\n        let t_via = rt::take();\n", wrap("Tr::dflt(&app, 41, 42)".to_string())));
+        src.push_str("/*GEN*/ rt::expect_eq(&mut fails, \"defaulted method: result through Impl<T> vs the provider (which inherits the default body)\", &via, &direct);\n");
+        src.push_str("/*GEN*/ rt::expect_eq(&mut fails, \"defaulted method: call trace through Impl<T> vs the provider\", &t_via, &t_direct);\n");
+        src.push_str("        if t_direct.len() != 1 { fails.push(format!(\"HARNESS: defaulted method traced {} entries on the provider\", t_direct.len())); }\n");
+        src.push_str("    }\n");
+    }
     let mut probes = vec![("::entrait::Impl<App>", true), ("::entrait::Impl<NoProvider>", false)];
     if dynamic || ns_provider {
         probes.push(("::entrait::Impl<NsApp>", false));
@@ -285,6 +302,9 @@ pub fn gen_case(t: &mut Tape) -> Case {
     }
     if lifetime_trait {
         classes.push("trait_lifetime_parameter");
+    }
+    if let Some(dasync) = dflt {
+        classes.push(if dasync { "defaulted_method_async" } else { "defaulted_method" });
     }
     if any_async {
         classes.push(if use_async_trait { "async_with_async_trait" } else { "async_static" });
